@@ -242,6 +242,8 @@ def gen_universe(rng, n_classes=5, max_fields=4, tns='urn:t', namespaces=('urn:t
             for j in range(rng.randint(0, 2)):
                 fields.append({'name': 'f%d_%d' % (i, j), 'ty': ('leaf', gen_leaf_type(rng, model_only, simple_content=True)), 'min': rng.choice([0, 0, 1]),
                                'max': 1, 'nillable': True, 'kind': 'attr'})
+                if rng.random() < 0.25:
+                    fields[-1]['sub_name'] = 'w%d_%d' % (i, j)
             rng.shuffle(fields)
             classes.append({'ns': rng.choice(namespaces), 'name': 'K%d' % i, 'parent': None, 'fields': fields})
             data_classes.add(i)
@@ -285,8 +287,8 @@ def gen_universe(rng, n_classes=5, max_fields=4, tns='urn:t', namespaces=('urn:t
                     mn = 2 if mx != 2 else 1
             f = {'name': name, 'ty': ty, 'min': mn, 'max': mx, 'nillable': nil, 'kind': kind}
             # another name / namespace on the wire (Attributes.sub_name, sub_ns): read back through _type_info_alt
-            if rng.random() < 0.18 and (kind == 'elem' or allow_sub_ns):
-                # (the XSD emitter honours sub_name for elements only: attributes get one only where no schema is involved)
+            if rng.random() < (0.18 if kind == 'elem' else 0.3):
+                # (attributes too: the published schema names them by their sub_name as well, C01-9002)
                 f['sub_name'] = 'w%d_%d' % (i, j)
             if allow_sub_ns and kind == 'elem' and rng.random() < 0.12:
                 # only where no published schema is involved: the XSD emitter ignores sub_ns (known finding)
